@@ -104,9 +104,13 @@ func genC13(seed uint64, index int, tier string) *run.Plan {
 		n := 1 + g.Intn(3)
 		for i := 0; i < n; i++ {
 			st := core.Stall{Role: c13roles[g.Intn(len(c13roles))], Site: c13sites[g.Intn(len(c13sites))], Nth: 1 + g.Intn(8), DelayMs: []int{1, p.P["block_ms"], p.P["block_ms"] * 3, p.P["block_ms"] * 8}[g.Intn(4)]}
-			if g.Intn(3) == 0 {
+			switch g.Intn(4) {
+			case 0:
 				// the window the waiter protocol is most sensitive to: a waiter that stopped listening but has not unsubscribed
 				st = core.Stall{Role: "execC13", Site: "(*ConnPool).unsubscribe", Nth: 1 + g.Intn(4), DelayMs: p.P["block_ms"] * (2 + g.Intn(8))}
+			case 1:
+				// ... and a waiter that is descheduled while it subscribes (check-then-register windows)
+				st = core.Stall{Role: "execC13", Site: []string{"(*ConnPool).subscribe", "(*ConnPool).bestConnection", "(*connection).MasterHead"}[g.Intn(3)], Nth: 1 + g.Intn(4), DelayMs: p.P["block_ms"] * (1 + g.Intn(3))}
 			}
 			p.Stalls = append(p.Stalls, st)
 		}
@@ -130,6 +134,10 @@ type c13op struct {
 	connID   int
 	callStep int
 	retStep  int
+	// W5: the best connection reported a head at or beyond the target at this instant while the call was pending
+	reachedAt time.Duration
+	reached   bool
+	subAt     time.Duration // instant at which subscribe released the pool's write lock (-1: it never took it)
 }
 
 // head register history for porcupine
@@ -279,6 +287,7 @@ func execC13(t *testing.T, w *core.World, p *run.Plan, r *run.Result) {
 	}
 	var cur *refresh
 	judgedN, unjudgedN := 0, 0
+	subAt := map[uint64]time.Duration{}
 	if !p.Free {
 		w.Sched.OnGrant = func(rq *core.LockReq) {
 			if rq.Write && strings.HasSuffix(rq.Site, "(*ConnPool).updateBest") {
@@ -288,6 +297,11 @@ func execC13(t *testing.T, w *core.World, p *run.Plan, r *run.Result) {
 		w.Sched.OnUnlock = func(m any, write bool, gid uint64, site string) {
 			if cur != nil && write && gid == cur.gid && strings.HasSuffix(site, "(*ConnPool).updateBest") {
 				cur.ended = true
+			}
+			if write && strings.HasSuffix(site, "(*ConnPool).subscribe") {
+				mu.Lock()
+				subAt[gid] = w.Now()
+				mu.Unlock()
 			}
 		}
 		w.OnAction = func(a *core.Action) {
@@ -408,6 +422,15 @@ func execC13(t *testing.T, w *core.World, p *run.Plan, r *run.Result) {
 
 	var ops []*c13op
 	lastHeads := map[int]uint32{}
+	prevBest, prevBestHead, prevStep := -1, uint32(0), -1
+	// W5 tolerates stalls of the waiting goroutines themselves (a descheduled caller still has to be told or to
+	// find the head when it subscribes); a stalled Run / connection goroutine legitimately delays notifications
+	poolSideStalled := false
+	for _, st := range p.Stalls {
+		if st.Role != "execC13" {
+			poolSideStalled = true
+		}
+	}
 	w.OnQuiescent = func(now time.Duration) {
 		if p.Free {
 			return
@@ -448,6 +471,24 @@ func execC13(t *testing.T, w *core.World, p *run.Plan, r *run.Result) {
 			}
 			pendingWrites[c.ID] = keep
 		}
+		// W5: between two consecutive quiescent points the best connection stayed the same and its head passed
+		// the target of a pending wait: the waiter has to be told (all of that takes no simulated time)
+		bestHead := uint32(0)
+		for _, c := range snap.Conns {
+			if c.ID == snap.BestID {
+				bestHead = c.HeadSeqno
+			}
+		}
+		if prevStep >= 0 && snap.BestID >= 0 && snap.BestID == prevBest && bestHead > prevBestHead {
+			mu.Lock()
+			for _, o := range ops {
+				if o.op.Kind == "wait" && o.started && !o.done && !o.reached && o.callStep <= prevStep && prevBestHead < o.seqno && o.seqno <= bestHead {
+					o.reached, o.reachedAt = true, now
+				}
+			}
+			mu.Unlock()
+		}
+		prevBest, prevBestHead, prevStep = snap.BestID, bestHead, w.Steps
 		if snap.Queued >= 10 {
 			w.Probe("notification-channel-full")
 		}
@@ -565,7 +606,10 @@ func execC13(t *testing.T, w *core.World, p *run.Plan, r *run.Result) {
 			}
 		}()
 		ctx := context.Background()
+		gid := core.Gid()
 		mu.Lock()
+		delete(subAt, gid)
+		o.subAt = -1
 		o.started, o.start, o.callStep = true, w.Now(), w.StepNow()
 		if o.op.Kind == "wait" {
 			o.seqno = uint32(int(globalHead) + o.op.A)
@@ -605,6 +649,9 @@ func execC13(t *testing.T, w *core.World, p *run.Plan, r *run.Result) {
 		}
 		mu.Lock()
 		o.done, o.end, o.err, o.retStep = true, w.Now(), err, w.StepNow()
+		if t, ok := subAt[gid]; ok {
+			o.subAt = t
+		}
 		mu.Unlock()
 	}
 	for _, c := range callerIDs {
@@ -731,6 +778,23 @@ func execC13(t *testing.T, w *core.World, p *run.Plan, r *run.Result) {
 				}
 				if o.end > deadline && !stalled {
 					w.Violate("C13.W2", "C13.W2|late-error", fmt.Sprintf("%s (timeout %v, cancel at +%v) returned %q after %v; its timeout had elapsed / its context was cancelled at +%v", name, o.timeout, o.cancelAt-o.start, o.err, o.end-o.start, deadline-o.start))
+				}
+				// W5: the true deadline counts from the instant subscribe returned (the timer starts there); the call
+				// must have produced its error exactly at that deadline (not later, which would mean the caller itself
+				// was descheduled across it and found both the head and the expiry ready)
+				trueDeadline := o.start + o.timeout
+				if o.subAt >= 0 {
+					trueDeadline = o.subAt + o.timeout
+				}
+				cancelledBeforeSubscribed := false
+				if o.cancelAt > 0 {
+					if o.cancelAt < trueDeadline {
+						trueDeadline = o.cancelAt
+					}
+					cancelledBeforeSubscribed = o.subAt >= 0 && o.cancelAt <= o.subAt
+				}
+				if o.reached && o.reachedAt < trueDeadline && o.end <= trueDeadline && !cancelledBeforeSubscribed && !poolSideStalled {
+					w.Violate("C13.W5", "C13.W5|missed-head", fmt.Sprintf("%s for seqno %d: the best connection reported a head at or beyond it at %v (the call was pending since %v, subscribed at %v, deadline %v), yet the call returned %q", name, o.seqno, o.reachedAt, o.start, o.subAt, trueDeadline, o.err))
 				}
 				if o.cancelAt > 0 && o.cancelAt <= o.start+o.timeout {
 					w.Probe("wait-cancelled")
